@@ -1067,6 +1067,21 @@ class Gen:
 				v = Var(name, 'list[int]', src.lo, src.hi)
 				v.minlen = v.maxlen = hi - lo
 				self.count('list:slice')
+			elif r.random() < 0.25:
+				# list fill `[v] * n` (`std::vector<T>(n, v)`): its rendered text looks like a constructor call of the declared type, so the
+				# annotated declaration `xs: list[int] = [v] * n` is where an initializer `xs{n, v}` would be wrong
+				elem = self.gen_int(env, 1, cap=CORE)
+				cnt = self.lit_int(0, 5) if r.random() < 0.5 else E('call', 'int', [E('call', 'int', [self.gen_int(env, 1, cap=50)], val='abs', lo=0, hi=50), self.lit_int(1, 5)], val='min', lo=0, hi=5)
+				e = E('bin', 'list[int]', [E('list', 'list[int]', [elem]), cnt], op='*')
+				v = Var(name, 'list[int]', min(elem.lo, -CORE), max(elem.hi, CORE))
+				v.minlen, v.maxlen = max(cnt.lo, 0), cnt.hi
+				self.count('list:fill')
+				if r.random() < 0.6:
+					self.count('list:fill-annotated')
+					body.append(S('anno', name, e, 'list[int]'))
+					env.vars[name] = v
+					env.locals_only.add(name)
+					return v
 			elif r.random() < 0.2:
 				x = self.fresh('i')
 				sub = Env(self, env)
@@ -2060,6 +2075,47 @@ def pair_programs(rng: random.Random, cases: list[dict[str, Any]], per_program: 
 		entries = [{'fn': f'f{k}', 'params': [ty for _, ty in PAIR_PARAMS], 'ret': c['ret'], 'args': c['args']} for k, c in enumerate(chunk)]
 		out.append((chunk, {'source': src, 'entries': entries, 'classes': {}}))
 	return out
+
+
+# ---------------------------------------------------------------------------------------------
+# idiom programs: small families with randomised operands that must AGREE (constructs the expression/statement IR does not carry)
+
+IDIOM_WHAT = {
+	'idiom:callable-capture': 'a lambda / closure that CALLS a callable held in a local variable or a `Callable[...]` parameter must capture it',
+	'idiom:list-fill-field': 'annotated declarations whose value is a list fill (`xs: list[int] = [v] * n`, constructor field `self.xs: list[int] = [v] * n`) '
+		'are n copies of v, not the two-element initializer {n, v}',
+}
+
+
+def idiom_program(rng: random.Random, key: str | None = None) -> tuple[str, dict[str, Any]]:
+	key = key or rng.choice(sorted(IDIOM_WHAT))
+	k1, k2, k3 = rng.randint(1, 9), rng.randint(2, 5), rng.randint(0, 9)
+	if key == 'idiom:callable-capture':
+		inc = rng.choice([f'a + {k1}', f'a * {k2} - {k3}', f'{k1} - a', f'(a & 7) + {k1}'])
+		lam = rng.choice(['fn(fn(x))', f'fn(x) + {k3}', f'fn(x + {k1}) * {k2}', f'fn(x) - fn({k3})'])
+		clo = rng.choice([f'fn(m) * {k2} + n', f'fn(fn(m)) - n', f'n - fn(m + {k1})'])
+		parts = ['from collections.abc import Callable\n', f'def inc(a: int) -> int:\n\treturn {inc}\n']
+		parts.append(f'def ap_lambda(fn: Callable[[int], int], n: int) -> int:\n\ttw: Callable[[int], int] = lambda x: {lam}\n\treturn tw(n) + {k3}\n')
+		parts.append(f'def ap_closure(fn: Callable[[int], int], n: int) -> int:\n\tdef inner(m: int) -> int:\n\t\treturn {clo}\n\treturn inner(n) + inner({k1})\n')
+		local = rng.choice([f'n + k + inc(n)', f'inc(n) * k', f'k - inc(n + {k1})'])
+		use = rng.choice(['clo(a) + ap_lambda(add, a)', 'ap_closure(add, a) - clo(a)', 'clo(a) * 2 + ap_closure(inc, a) + ap_lambda(inc, a)'])
+		parts.append(f'def scaled(a: int) -> int:\n\tk = {k2}\n\tadd: Callable[[int], int] = lambda n: {local}\n\n\tdef clo(m: int) -> int:\n\t\treturn add(m) * 2 + add({k3})\n\n\treturn {use}\n')
+		parts.append('def e_lambda(n: int) -> int:\n\treturn ap_lambda(inc, n)\n')
+		parts.append('def e_closure(n: int) -> int:\n\treturn ap_closure(inc, n)\n')
+		args = [[rng.randint(-9, 20)] for _ in range(5)]
+		entries = [{'fn': f, 'params': ['int'], 'ret': 'int', 'args': args} for f in ('e_lambda', 'e_closure', 'scaled')]
+		return key, {'source': '\n\n'.join(parts), 'entries': entries, 'classes': {}}
+	elem = rng.choice([str(k3), 'v', f'v + {k1}', f'v * {k2}'])
+	cnt = rng.choice(['n', f'n + {rng.randint(1, 2)}', f'(n & 3)', str(rng.randint(0, 4))])
+	read = rng.choice(['t += x', f't = t * {k2} + x', 't += x + 1'])
+	parts = [f'class Grid:\n\tcells: list[int]\n\tn: int\n\n\tdef __init__(self, n: int, v: int) -> None:\n\t\tself.n = n\n\t\tself.cells: list[int] = [{elem}] * ({cnt})\n\n'
+		f'\tdef total(self) -> int:\n\t\tt = 0\n\t\tfor x in self.cells:\n\t\t\t{read}\n\t\treturn t * 100 + len(self.cells)\n']
+	parts.append(f'def fill_anno(n: int, v: int) -> int:\n\tdp: list[int] = [{elem}] * ({cnt})\n\tt = len(dp) * 1000\n\tfor x in dp:\n\t\t{read}\n\tfor i in range(len(dp)):\n\t\tt += dp[i]\n\treturn t\n')
+	parts.append(f'def fill_inferred(n: int, v: int) -> int:\n\tdp = [{elem}] * ({cnt})\n\tt = len(dp) * 1000\n\tfor x in dp:\n\t\t{read}\n\treturn t\n')
+	parts.append('def fill_field(n: int, v: int) -> int:\n\tg = Grid(n, v)\n\treturn g.total()\n')
+	args = [[rng.randint(0, 6), rng.randint(0, 9)] for _ in range(5)]
+	entries = [{'fn': f, 'params': ['int', 'int'], 'ret': 'int', 'args': args} for f in ('fill_anno', 'fill_inferred', 'fill_field')]
+	return key, {'source': '\n\n'.join(parts), 'entries': entries, 'classes': {'Grid': ['cells', 'n']}}
 
 
 def generate(rng: random.Random, size: int = 2, kind: str | None = None) -> tuple[Prog, dict[str, int]]:
